@@ -113,13 +113,13 @@ CHECKS = {
 
 # clauses added after the fifth blind round (appended to "what is decided")
 EXTRA = {
-    "C01": "every element typedlist._pack writes is the packed form of a value of the element type; flavoured decoders (path, command) construct the class the stored tag names; readers register every descriptor frame (taken over from C03); a validating setter writes its attributes together (taken over from C05)",
-    "C02": "every element typedlist._pack writes is the packed form of a value of the element type; a descriptor frame reaches the constructor unchanged; no _pack caches its result on the value; a grouped record's members and descriptors are appended as pairs (taken over from C03)",
+    "C01": "every element typedlist._pack writes is the packed form of a value of the element type; flavoured decoders (path, command) construct the class the stored tag names; readers register every descriptor frame (taken over from C03); a validating setter writes its attributes together (taken over from C05); descriptors precede the records that need them (taken over from C03)",
+    "C02": "every element typedlist._pack writes is the packed form of a value of the element type; a descriptor frame reaches the constructor unchanged; no _pack caches its result on the value; a grouped record's members and descriptors are appended as pairs (taken over from C03); frame = length prefix + exactly that body (taken over from C01); generated decoders never truth-test a value (taken over from C05)",
     "C03": "JSON lines are decoded through the packer's object_hook (nested records); a grouped record's members and descriptors are appended as pairs",
     "C04": "no buffering layer is put around an object that can be a raising decompressor, anywhere in the package; the decoder receives fp.read(<decoded size>) wherever that is written; the descriptor handler writes its frame at once (taken over from C03)",
     "C05": "every initialiser of a typed list's storage is a converted one; state written by a validating setter has no other writer; generated code never truth-tests a generic field value; no conversion cache keyed by equality of the raw input; the fieldtype cache outlives the whitelist; a validating setter writes its attributes together",
     "C06": "every return of fieldtype() is under the whitelist test and the lookup does not recurse; the whitelist tree walk is decided by facts and reachability; the JSON descriptor branch returns only validated constructions; declared field names are pairwise distinct (known finding F06b); parse_def only without a field list",
-    "C07": "the typed matcher hands its whole query to the matcher of a nested record; the interpreted namespace is rebuilt before every evaluation and a generator variable is unbound when its generator ends; the expression text is compiled as given; get_field returns the plain getattr; in the string helpers every needle is lowered on every path on which nocase is on",
+    "C07": "the typed matcher hands its whole query to the matcher of a nested record; the interpreted namespace is rebuilt before every evaluation and a generator variable is unbound when its generator ends; the expression text is compiled as given; get_field returns the plain getattr; in the string helpers every needle is lowered on every path on which nocase is on; neither engine carries per-record state to the next record (taken over from C10)",
     "C08": "arithmetic / bit operators on a missing field yield the sentinel in both engines (operator methods of the sentinel class, interpreted BinOp guard); the descriptor of a plain JSON line derives from that line (taken over from C14); the sentinel class is instantiated exactly once in the package",
     "C09": "the call predicate is followed into matcher methods and locals; a getattr name of untraceable provenance needs the dunder refusal; the matcher helper classes call no runtime value; WHITELIST is complete when the tree is built",
     "C10": "readers do not force a selector engine; the compiled engine's helper objects keep nothing between records",
@@ -128,10 +128,10 @@ EXTRA = {
     "C13": "both places that declare SQLite columns map the field type the same way (taken over from C18)",
     "C14": "the descriptor handler is registered exactly when descriptors are enabled (facts + reachability); generated constructor code never truth-tests a generic field value; digest setters validate before they store (taken over from C05); sub-modules read as package attributes are imported by module-level code that certainly ran",
     "C15": "RecordDescriptor equality implies equal name and field tuples (the caches are keyed by it); a grouped record's flat view reads from the owning member (known finding F15c for plain attribute access); generated constructor code never truth-tests a generic field value; _replace of a grouped record works on fresh members",
-    "C16": "the split suffix never truncates the part number; the interpreted engine's namespace is rebuilt per record; the timestamp expansion reads the original record (from C15); the CSV writer starts a header per run of a record type (from C20); generated code never truth-tests a generic field value (taken over from C05)",
-    "C17": "the archiver's template is instantiated with the record's own _generated value and the record itself; close() finalises unconditionally (no state flag); transaction control only in tx_cycle (from C18)",
+    "C16": "the split suffix never truncates the part number; the interpreted engine's namespace is rebuilt per record; the timestamp expansion reads the original record (from C15); the CSV writer starts a header per run of a record type (from C20); generated code never truth-tests a generic field value (taken over from C05); the matcher starts every record with fresh data (taken over from C10)",
+    "C17": "the archiver's template is instantiated with the record's own _generated value and the record itself; close() finalises unconditionally (no state flag); transaction control only in tx_cycle (from C18); the SQLite reader lists every table the writer can create (taken over from C18); one Avro container header per file (taken over from C19)",
     "C18": "memoised functions of the SQL adapters do not read the database; 'seen before' rests on descriptor equality by definition (from C15); normalize_fieldname leaves keywords alone",
-    "C19": "descriptors are never falsy (the writer tests the truth of self.desc); split rotation finalises the full part (from C17); an unmapped type raises before any field schema is appended (reachability); generated code never truth-tests a generic field value (taken over from C05)",
+    "C19": "descriptors are never falsy (the writer tests the truth of self.desc); split rotation finalises the full part (from C17); an unmapped type raises before any field schema is appended (reachability); generated code never truth-tests a generic field value (taken over from C05); one Avro container header per file whatever the order of flush() and write()",
     "C20": "the rendered text is written as rendered; the CSV dialect is sniffed from a block read of the file; the CSV header test rests on descriptor equality by definition (from C15); a grouped record's flat view reads from the owning member; the character substitution of normalize_fieldname precedes its prefix tests",
 }
 
